@@ -68,12 +68,19 @@ class Inconclusive(BaseException):
 class G:
     """A conjunction of z3 Boolean atoms.  G(()) is true; FALSE is the distinguished false guard."""
 
-    __slots__ = ("atoms", "ids", "_e")
+    __slots__ = ("atoms", "ids", "_e", "_neg_ids")
 
     def __init__(self, atoms=()):
         self.atoms = tuple(atoms)
         self.ids = frozenset(a.get_id() for a in self.atoms)
         self._e = None
+        self._neg_ids = None
+
+    @property
+    def neg_ids(self):
+        if self._neg_ids is None:
+            self._neg_ids = frozenset(neg_id(a) for a in self.atoms)
+        return self._neg_ids
 
     @property
     def e(self):
@@ -104,10 +111,7 @@ class G:
         """Syntactic: some atom of other occurs negated in self."""
         if self is FALSE or other is FALSE:
             return True
-        for a in other.atoms:
-            if neg(a).get_id() in self.ids:
-                return True
-        return False
+        return not self.neg_ids.isdisjoint(other.ids)
 
     def __repr__(self):
         if self is FALSE:
@@ -120,12 +124,24 @@ class _False(G):
         self.atoms = ()
         self.ids = frozenset()
         self._e = z3.BoolVal(False)
+        self._neg_ids = frozenset()
 
 
 FALSE = _False()
 TRUE = G(())
 
 _neg_cache = {}
+
+
+def neg_id(a):
+    """id of the negation of atom a (memoised; the negated term is kept alive by the cache)."""
+    k = a.get_id()
+    r = _neg_cache.get(k)
+    if r is None:
+        n = neg(a)
+        r = (n.get_id(), n, a)
+        _neg_cache[k] = r
+    return r[0]
 
 
 def neg(a):
@@ -610,7 +626,6 @@ class SBV:
 
 
 def mk_bv(e, w, signed=False):
-    e = z3.simplify(e) if e.num_args() < 4 else e
     if z3.is_bv_value(e):
         v = e.as_long()
         if signed and v >= (1 << (w - 1)):
